@@ -180,6 +180,20 @@ func init() {
 					case "grantCtTrunc":
 						gr := env.Grants[r%len(env.Grants)]
 						gr.Ciphertexts[0] = gr.Ciphertexts[0][:r%len(gr.Ciphertexts[0])]
+					case "kpIdxAppend":
+						gr := env.Grants[r%len(env.Grants)]
+						gr.KeypairIndexes = append(gr.KeypairIndexes, uint32(r%3))
+					case "kpIdxDrop":
+						gr := env.Grants[r%len(env.Grants)]
+						gr.KeypairIndexes = gr.KeypairIndexes[:len(gr.KeypairIndexes)-1]
+					case "grantCtsDrop":
+						env.Grants[r%len(env.Grants)].Ciphertexts = nil
+					case "grantCtsAppend":
+						gr := env.Grants[r%len(env.Grants)]
+						gr.Ciphertexts = append(gr.Ciphertexts, gr.Ciphertexts[0])
+					case "kpIdxHuge":
+						gr := env.Grants[r%len(env.Grants)]
+						gr.KeypairIndexes[0] = 1 << 30
 					case "dropGrant":
 						env.Grants = env.Grants[:len(env.Grants)-1]
 					case "dupGrant":
